@@ -130,3 +130,19 @@ func New(key []byte) *Cipher {
 func (c *Cipher) Encrypt(dst, src []byte) { crypt(&c.rk, dst, src, false) }
 func (c *Cipher) Decrypt(dst, src []byte) { crypt(&c.rk, dst, src, true) }
 func (c *Cipher) BlockSize() int          { return 16 }
+
+// KeyForRoundKey returns a 16-byte key whose i-th encryption round key (0..31) equals v: the three
+// preceding schedule words are set to filler and the key schedule is run backwards (it is invertible).
+func KeyForRoundKey(i int, v uint32, filler [3]uint32) []byte {
+	var k [36]uint32
+	k[i+4] = v
+	k[i+1], k[i+2], k[i+3] = filler[0], filler[1], filler[2]
+	for idx := i; idx >= 0; idx-- {
+		k[idx] = k[idx+4] ^ LPrime(Tau(k[idx+1]^k[idx+2]^k[idx+3]^CK(idx)))
+	}
+	key := make([]byte, 16)
+	for j := 0; j < 4; j++ {
+		binary.BigEndian.PutUint32(key[4*j:], k[j]^FK[j])
+	}
+	return key
+}
